@@ -46,10 +46,13 @@ def board_cases(draw):
 
 @st.composite
 def cli_cases(draw):
-    return dict(kind="cli", seed=draw(st.integers(0, 10 ** 9)), length=draw(st.integers(1, 5)),
-                width=draw(st.integers(1, 5)), lt=draw(st.sampled_from((0.3, 0.5, 0.07, 0.93))),
-                rb=draw(st.sampled_from((0.1, 0.5, 0.29))), lb=draw(st.sampled_from((0.1, 0.5, 0.57))),
-                tb=draw(st.sampled_from((0.1, 0.5, 0.58))), max_reward=draw(st.sampled_from((1, 6, 40, 1023))),
+    big = draw(st.integers(0, 3)) == 0
+    return dict(kind="cli", seed=draw(st.integers(0, 10 ** 9)), length=draw(st.integers(1, 12 if big else 5)),
+                width=draw(st.integers(1, 12 if big else 5)),
+                # requested loose-tile frequencies off the whole percents too (0.004 and 0.996 are legal)
+                lt=draw(st.sampled_from((0.3, 0.5, 0.07, 0.93, 0.004, 0.996, 0.0049, 0.333, 0.625, 1e-9))),
+                rb=draw(st.sampled_from((0.1, 0.5, 0.29, 0.004, 0.125))), lb=draw(st.sampled_from((0.1, 0.5, 0.57, 0.996))),
+                tb=draw(st.sampled_from((0.1, 0.5, 0.58, 0.0049, 0.375))), max_reward=draw(st.sampled_from((1, 6, 40, 1023))),
                 force_down=draw(st.booleans()))
 
 
@@ -237,9 +240,24 @@ def check_cli(case, v):
     if len(f1) != 1:
         v.fail("cli-file-count", f"main({' '.join(args)}) left files {sorted(f1)}")
         return
-    if f1 != f2 and loaded(f1) != loaded(f2):
+    l1 = loaded(f1)
+    if f1 != f2 and l1 != loaded(f2):
         v.fail("not-reproducible", f"main({' '.join(args)}) twice: different file names or different games "
                                    f"({sorted(f1)} vs {sorted(f2)})")
+        return
+    # the command line draws the board of exactly these parameters: the written games are the games of
+    # gen_rnd_board(seed, length, width, lt, max_reward, force_down) under the three break probabilities given
+    if case["lt"] not in (0.3, 0.5, 0.07, 0.93):
+        v.cls("cli_frequency_off_whole_percent")
+    want = boards.games_from_board(boards.random_board(case["seed"], case["length"], case["width"], case["lt"],
+                                                       case["max_reward"], case["force_down"], case["tb"], case["rb"],
+                                                       case["lb"]))
+    got = next(iter(l1.values()))
+    if got != want:
+        which = [k for k in want if not isinstance(got, dict) or got.get(k) != want[k]]
+        v.fail("cli-board-differs-from-parameters",
+               f"main({' '.join(args)}) wrote games that are not those of the board drawn from these parameters "
+               f"(differing: {which[:3]})")
 
 
 def check_refuse(case, v):
